@@ -126,6 +126,25 @@ impl MutatorKind {
     }
 }
 
+/// Decide whether a mutator should leave the current value alone.
+///
+/// Draws one `f64` from the source and compares it with the mutation rate. The extremes are
+/// exact whatever the source yields: fuzzer bytes can decode to any `f64` (NaN, negative or
+/// above 1.0) and to 0.0 once they are exhausted, so rate 0.0 never mutates and rate 1.0
+/// always does. The draw is made in every case to keep PRNG-seeded output unchanged.
+pub(crate) fn skip_mutation(source: &mut GenerationSource, rate: f64) -> bool {
+    use crate::generator::EntropySource;
+
+    let roll = source.gen_f64();
+    if rate <= 0.0 {
+        return true;
+    }
+    if rate >= 1.0 {
+        return false;
+    }
+    roll > rate
+}
+
 /// Trait for implementing mutation strategies.
 ///
 /// Mutators can modify opcode arguments during generation to create
